@@ -302,3 +302,262 @@ func ObjectIdentityAgreement(p *core.Program, r *core.Report, rule string) {
 	r.RuleCounts[rule] = n
 	r.Floor(rule, 4)
 }
+
+// isAPIPackage: packages whose struct types are decoded Kubernetes API objects.
+func isAPIPackage(path string) bool {
+	return strings.HasPrefix(path, "k8s.io/api/") || strings.HasPrefix(path, "sigs.k8s.io/network-policy-api/") ||
+		strings.HasPrefix(path, "github.com/openshift/api/") || strings.HasSuffix(path, "apimachinery/pkg/apis/meta/v1") ||
+		strings.HasSuffix(path, "apimachinery/pkg/util/intstr")
+}
+
+// ObjectsEvaluatedAsDecoded is C01-asdecoded (also a condition of C14 and C03). The report is about the manifests the
+// user gave: what a policy, a workload or a service SAYS is what the decoder produced from its document. A production
+// function that assigns to a field of a decoded API object (a struct type of k8s.io/api, network-policy-api, openshift
+// api, meta/v1 or intstr) rewrites the input before it is evaluated - a "normalisation" of ports, policyTypes, selectors
+// or labels then decides the semantics instead of the evaluator, for every later reader, and only on the path that runs
+// it (list from files vs objects inserted through the API). The one reviewed rewrite is the namespace default
+// (metadata.namespace "" -> "default"). Objects a function builds itself (a local defined by a composite literal or new
+// in the same function, e.g. the pods generated from a workload template) are its own.
+func ObjectsEvaluatedAsDecoded(p *core.Program, r *core.Report, rule string) {
+	n := 0
+	for _, fd := range p.Funcs {
+		if strings.Contains(fd.Pkg.PkgPath, "/testutils") {
+			continue
+		}
+		info := fd.Pkg.TypesInfo
+		for _, fw := range FieldWrites(info, fd.Decl.Body) {
+			as, ok := fw.At.(*ast.AssignStmt)
+			if !ok || fw.Field.Pkg() == nil || !isAPIPackage(fw.Field.Pkg().Path()) {
+				continue
+			}
+			// the object written through: root identifier of the left side
+			var lhs ast.Expr
+			for i, l := range as.Lhs {
+				if i < len(as.Rhs) && as.Rhs[i] == fw.Value {
+					lhs = l
+				}
+			}
+			if lhs == nil {
+				continue
+			}
+			root := core.RootIdent(lhs)
+			if root == nil {
+				continue
+			}
+			if v, isVar := info.ObjectOf(root).(*types.Var); isVar && !v.IsField() && v.Parent() != v.Pkg().Scope() {
+				if definedFresh(fd, info, root) || declaredAsValue(fd, info, v) {
+					continue // the function's own object
+				}
+			}
+			n++
+			c := fd.Key() + ": assigns " + fw.Owner + "." + fw.Field.Name() + " of an API object it did not build"
+			if fw.Field.Name() == "Namespace" && strings.HasSuffix(fw.Field.Pkg().Path(), "meta/v1") {
+				r.Add(rule, c, p.Pos(as.Pos()), core.Excepted, "the documented namespace default: an object without metadata.namespace is an object of the default namespace")
+				continue
+			}
+			if why, ok := asDecodedExceptions[core.RefName(fd.Obj)+":"+fw.Owner+"."+fw.Field.Name()]; ok {
+				r.Add(rule, c, p.Pos(as.Pos()), core.Excepted, why)
+				continue
+			}
+			r.Bad(rule, c, p.Pos(as.Pos()), "a decoded API object is rewritten before it is evaluated: what the report is computed from is no longer what the manifest says (and only on the path that runs this rewrite - objects handed to the library directly keep the other form), so the evaluated semantics is decided here and not by the evaluator",
+				"write: "+core.ExprStr(as))
+		}
+	}
+	// element stores: `rule.Ports[i] = NetworkPolicyPort{...}` replaces a decoded element as a whole
+	for _, fd := range p.Funcs {
+		if strings.Contains(fd.Pkg.PkgPath, "/testutils") {
+			continue
+		}
+		info := fd.Pkg.TypesInfo
+		ast.Inspect(fd.Decl.Body, func(nd ast.Node) bool {
+			as, ok := nd.(*ast.AssignStmt)
+			if !ok || as.Tok != token.ASSIGN {
+				return true
+			}
+			for _, l := range as.Lhs {
+				var target ast.Expr
+				switch x := ast.Unparen(l).(type) {
+				case *ast.IndexExpr:
+					if _, isMap := info.TypeOf(x.X).Underlying().(*types.Map); !isMap {
+						target = x
+					}
+				case *ast.StarExpr:
+					target = x
+				}
+				if target == nil {
+					continue
+				}
+				nt := core.NamedOf(info.TypeOf(target))
+				if pt, isPtr := info.TypeOf(target).Underlying().(*types.Pointer); isPtr {
+					nt = core.NamedOf(pt.Elem())
+				}
+				if nt == nil || nt.Obj().Pkg() == nil || !isAPIPackage(nt.Obj().Pkg().Path()) {
+					continue
+				}
+				if _, isStruct := nt.Underlying().(*types.Struct); !isStruct {
+					continue
+				}
+				root := core.RootIdent(target)
+				if root == nil {
+					continue
+				}
+				if v, isVar := info.ObjectOf(root).(*types.Var); isVar && !v.IsField() && v.Parent() != v.Pkg().Scope() {
+					if definedFresh(fd, info, root) {
+						continue
+					}
+				}
+				n++
+				r.Bad(rule, fd.Key()+": replaces an element of type "+nt.Obj().Name()+" of an API object it did not build", p.Pos(as.Pos()),
+					"a decoded API object is rewritten before it is evaluated: what the report is computed from is no longer what the manifest says (and only on the path that runs this rewrite), so the evaluated semantics is decided here and not by the evaluator",
+					"write: "+core.ExprStr(as))
+			}
+			return true
+		})
+	}
+	r.RuleCounts[rule] = n
+	r.Floor(rule, 0)
+}
+
+// asDecodedExceptions: reviewed rewrites of decoded objects, keyed by function and field.
+var asDecodedExceptions = map[string]string{
+	"checkAndUpdatePodStatusIPsFields:PodStatus.HostIP": "a Pod manifest without status.hostIP gets the loopback placeholder: the engine needs an address to build the peer; documented in the function, and no policy semantics depends on the placeholder (node-IP rule: loopback is never a pod's peer address)",
+	"checkAndUpdatePodStatusIPsFields:PodStatus.PodIPs": "a Pod manifest without status.podIPs gets the loopback placeholder: the engine needs an address to build the peer; pods are matched by labels, never by address",
+}
+
+// declaredAsValue: the variable is a local struct VALUE (not a pointer, not a parameter): `var x T` / `x := T{}` / a range
+// copy - writing its fields cannot reach the caller's object.
+func declaredAsValue(fd *core.FuncDecl, info *types.Info, v *types.Var) bool {
+	if _, isPtr := v.Type().Underlying().(*types.Pointer); isPtr {
+		return false
+	}
+	if _, isStruct := v.Type().Underlying().(*types.Struct); !isStruct {
+		return false
+	}
+	sig := fd.Obj.Type().(*types.Signature)
+	for i := 0; i < sig.Params().Len(); i++ {
+		if sig.Params().At(i) == v {
+			return true // a struct passed by value is a copy too
+		}
+	}
+	if sig.Recv() == v {
+		return false
+	}
+	return true
+}
+
+// isSelectorMatches: a call of the Matches method of the apimachinery label-selector interface.
+func isSelectorMatches(info *types.Info, c *ast.CallExpr) bool {
+	fn := core.Callee(info, c)
+	return fn != nil && fn.Name() == "Matches" && fn.Pkg() != nil && strings.HasSuffix(fn.Pkg().Path(), "apimachinery/pkg/labels")
+}
+
+// SelectionOwnedByEngine is C03-sel-owner (who-may-call; also a condition of C02). Which pods and namespaces a policy
+// selects is decided by label-selector matching inside the policy engine (packages eval and eval/internal/k8s; the ingress
+// analyzer matches Service selectors). A second place that matches selectors - a pre-filter of the objects given to
+// `eval`, a relevance test in the parser or in connlist - decides selection on its own view of the labels (e.g. without
+// the kubernetes.io/metadata.name label the engine adds to a namespace that has no Namespace object) and then disagrees
+// with the engine about the same policy: one command drops a policy that the other one applies.
+func SelectionOwnedByEngine(p *core.Program, r *core.Report, rule string) {
+	owners := map[string]string{
+		core.PkgEval: "the policy engine",
+		core.PkgK8s:  "the policy engine's policy types",
+		core.ModPath + "/pkg/netpol/connlist/internal/ingressanalyzer": "Service selectors -> workloads",
+	}
+	n := 0
+	for _, fd := range p.Funcs {
+		if strings.Contains(fd.Pkg.PkgPath, "/testutils") {
+			continue
+		}
+		info := fd.Pkg.TypesInfo
+		ast.Inspect(fd.Decl.Body, func(nd ast.Node) bool {
+			c, ok := nd.(*ast.CallExpr)
+			if !ok || !isSelectorMatches(info, c) {
+				return true
+			}
+			n++
+			_, isOwner := owners[fd.Pkg.PkgPath]
+			r.Check(isOwner, rule, fd.Key()+": label selectors are matched inside the policy engine only", p.Pos(c.Pos()), "a package that owns selection",
+				"a label selector is matched outside the policy engine: a second implementation of `which objects does this policy select` works on its own view of the labels and can disagree with the engine (list and eval, or CLI and API, then apply different policy sets to the same pods)")
+			return true
+		})
+	}
+	r.RuleCounts[rule] = n
+	r.Floor(rule, 5)
+}
+
+// SelectorsMatchObjectLabels is C17-labels (also a condition of C08 and C19). Pods of one owner are reported as ONE
+// workload represented by one of them - whichever the map iteration leaves - which is sound because the engine rejects
+// owners whose pods differ in their LABELS (C19-labels) and the verdict cache is keyed by the hash of the LABELS. Both
+// cover the field Labels and nothing else. So the label set a selector is matched against must be the Labels field of a
+// pod or namespace object (or a parameter / local that names such a value); a set computed from further per-pod state
+// (identity labels kept apart, annotations, a merged map) makes selection depend on which replica represents the
+// workload.
+func SelectorsMatchObjectLabels(p *core.Program, r *core.Report, rule string) {
+	n := 0
+	var okSource func(fd *core.FuncDecl, e ast.Expr, depth int) (bool, string)
+	okSource = func(fd *core.FuncDecl, e ast.Expr, depth int) (bool, string) {
+		info := fd.Pkg.TypesInfo
+		e = ast.Unparen(ResolveLocal(info, fd.Decl.Body, e))
+		// labels.Set(x) conversion
+		if c, ok := e.(*ast.CallExpr); ok && core.IsConversion(info, c) && len(c.Args) == 1 {
+			return okSource(fd, c.Args[0], depth)
+		}
+		switch x := e.(type) {
+		case *ast.SelectorExpr:
+			if f := core.FieldOf(info, x); f != nil && (f.Name() == "Labels" || f.Name() == "MatchLabels") {
+				return true, ""
+			}
+			return false, "the field " + x.Sel.Name
+		case *ast.Ident:
+			if v, ok := info.ObjectOf(x).(*types.Var); ok {
+				sig := fd.Obj.Type().(*types.Signature)
+				for i := 0; i < sig.Params().Len(); i++ {
+					if sig.Params().At(i) == v {
+						return true, "" // handed in by the caller: judged at the call sites that pass a field
+					}
+				}
+			}
+			return false, "the computed value " + x.Name
+		case *ast.CallExpr:
+			fn := core.Callee(info, x)
+			if fn != nil && p.IsModuleFunc(fn) && depth > 0 {
+				if h := p.ByObj[fn]; h != nil {
+					all, why := true, ""
+					ast.Inspect(h.Decl.Body, func(nd ast.Node) bool {
+						if _, isLit := nd.(*ast.FuncLit); isLit {
+							return false
+						}
+						if rs, ok := nd.(*ast.ReturnStmt); ok && len(rs.Results) > 0 {
+							if ok2, w := okSource(h, rs.Results[0], depth-1); !ok2 {
+								all, why = false, w+" returned by "+core.RefName(fn)
+							}
+						}
+						return true
+					})
+					return all, why
+				}
+			}
+			return false, "the result of " + core.ExprStr(x.Fun)
+		}
+		return false, core.ExprStr(e)
+	}
+	for _, fd := range p.Funcs {
+		if strings.Contains(fd.Pkg.PkgPath, "/testutils") {
+			continue
+		}
+		info := fd.Pkg.TypesInfo
+		ast.Inspect(fd.Decl.Body, func(nd ast.Node) bool {
+			c, ok := nd.(*ast.CallExpr)
+			if !ok || !isSelectorMatches(info, c) || len(c.Args) != 1 {
+				return true
+			}
+			n++
+			good, why := okSource(fd, c.Args[0], 2)
+			r.Check(good, rule, fd.Key()+": a selector is matched against the Labels of an object", p.Pos(c.Pos()), "the matched set is a Labels field (or a parameter naming one)",
+				"the label set matched here is "+why+", not the Labels field of the pod / namespace: the same-owner consistency check and the cache key cover Labels only, so pods of one owner may now be selected differently and the workload's connectivity depends on which replica represents it")
+			return true
+		})
+	}
+	r.RuleCounts[rule] = n
+	r.Floor(rule, 5)
+}
